@@ -243,7 +243,7 @@ class LinHooks:
             if a is None or b is None:
                 return E.BoolV(E.FALSE)
             return E.BoolV(equal(a, b))
-        if recv is not None and isinstance(recv, (LinV, E.Obj)) and short in ('logsumexp', 'exp', 'log', 'sum', 'max') and not isinstance(recv, E.Num) \
+        if recv is not None and isinstance(recv, (LinV, E.Obj)) and short in ('logsumexp', 'exp', 'log', 'sum', 'max', 'sign') and not isinstance(recv, E.Num) \
                 and (isinstance(recv, LinV) or recv.cls not in ('dict', 'list', 'set')):
             c = self.canon(eng, recv)
             if short in ('logsumexp', 'sum', 'max') and not args and not kw:
@@ -256,8 +256,10 @@ class LinHooks:
         if recv is None and len(args) == 1 and not kw and vec(args[0]):
             if name in ('logsumexp', 'scipy.special.logsumexp'):
                 return E.Num(eng.uf('map_logsumexp_all', V, R)(self.canon(eng, args[0])), npy=True, taint=args[0].taint)
-            if name in ('np.exp', 'np.log'):
-                return E.Obj(eng.uf('map_%s_0' % name[3:], V, V)(self.canon(eng, args[0])), taint=args[0].taint)
+            if name in ('np.exp', 'np.log', 'np.sign'):
+                return E.Obj(eng.uf('map_%s_0' % name[3:], V, V)(self.canon(eng, args[0])), taint=args[0].taint)     # x.sign() and np.sign(x): one map
+            if name in ('abs', 'np.abs'):
+                return E.Obj(eng.uf('map_abs_0', V, V)(self.canon(eng, args[0])), taint=args[0].taint)
         return NotImplemented
 
     def _root_and_key(self, eng, st, node, k_last):
